@@ -246,6 +246,34 @@ func (o *authorityOracle) Leg(c *explore.Ctx, leg *world.Leg) {
 				fmt.Sprintf("ESDTNFTCreate with quantity %s by %s succeeded without the add-quantity role", spec.ArgBig(in.Arguments[1]), uni.Name(in.CallerAddr)))
 		}
 	}
+	// what "currently holds" means: the stored list after a role message is the old list with the
+	// given roles appended (set) / with every given role removed (unset)
+	if (leg.Func == vmcommon.BuiltInFunctionSetESDTRole || leg.Func == vmcommon.BuiltInFunctionUnSetESDTRole) && len(in.Arguments) >= 2 {
+		tok := string(in.Arguments[0])
+		before := spec.Roles(leg.Pre.Get(in.RecipientAddr), tok)
+		after := spec.Roles(leg.Post.Get(in.RecipientAddr), tok)
+		var want [][]byte
+		if leg.Func == vmcommon.BuiltInFunctionSetESDTRole {
+			want = append(append([][]byte{}, before...), in.Arguments[1:]...)
+		} else {
+			want = append([][]byte{}, before...)
+			for _, r := range in.Arguments[1:] {
+				for i, x := range want {
+					if bytes.Equal(x, r) {
+						want = append(want[:i:i], want[i+1:]...)
+						break
+					}
+				}
+			}
+		}
+		same := len(want) == len(after)
+		for i := 0; same && i < len(want); i++ {
+			same = bytes.Equal(want[i], after[i])
+		}
+		if !same {
+			c.Report(p, "role-effect", leg.Func+":stored-list", fmt.Sprintf("%s(%q, %q) on %s turned the role list %q into %q, expected %q", leg.Func, tok, in.Arguments[1:], uni.Name(in.RecipientAddr), before, after, want))
+		}
+	}
 	if leg.Func == vmcommon.BuiltInFunctionESDTWipe && !sys {
 		c.Report(p, "system-only", "ESDTWipe:non-system-caller", fmt.Sprintf("ESDTWipe by %s succeeded", uni.Name(in.CallerAddr)))
 	}
